@@ -129,7 +129,6 @@ fn build_wrapped_loop_choice_block(
         group: choices_group,
         group_name: Some(loop_label.to_owned()),
         continuation: continuation_value.map(|value| (g_name, value)),
-        continuation_placement: ThreadedContinuationPlacement::OutsideGroup,
     })
 }
 
